@@ -131,9 +131,12 @@ _DIR = None
 
 
 def _workdir():
+    """One directory per check run: created in the main process, inherited by the forked replay workers."""
     global _DIR
     if _DIR is None:
-        _DIR = scratch_dir("c06-files")
+        _DIR = os.environ.get("C06_WORKDIR") or scratch_dir("c06-files")
+        os.environ["C06_WORKDIR"] = _DIR
+    os.makedirs(_DIR, exist_ok=True)
     return _DIR
 
 
@@ -256,6 +259,7 @@ def replay(case) -> int:
 def run(tier: str, seed: int) -> int:
     ensure_repo_on_path()
     v = Verdict("C06", tier, seed)
+    _workdir()            # before any worker is forked
     if tier == "quick":
         plans = [("polar", "single", "few", 1.0), ("cartesian", "single", "few", 0.5), ("five", "single", "none", 0.2),
                  ("cartesian", "product", "few", 0.01), ("instrument", "single", "none", 1.0)]
@@ -281,6 +285,7 @@ def run(tier: str, seed: int) -> int:
         cli_roundtrip(v)
     finally:
         shutil.rmtree(_workdir(), ignore_errors=True)
+        os.environ.pop("C06_WORKDIR", None)
     v.evaluations = v.nontrivial
     v.extra["rule"] = ("configurations = states of specs/Table.tla (header row x file options); the listed fraction of them (chosen by a hash "
                        "with VERIF_SEED) is written as a real file and parsed; non-trivial = files actually written and parsed")
